@@ -44,6 +44,10 @@ CHECKS = {
          "Values are built from reference integers, printed with Display and Debug, parsed back and compared field by field; the printed text is scanned independently for 'fewest of 0/3/6/9 lossless fraction digits', 'sign exactly outside 0..=9999' and 'second 60 exactly for leap seconds'. NaiveDate is exhaustive in thorough (191M dates; quick walks ~9600 years around every place where the printed form changes), times cover every second x 33 fractions, offsets are exhaustive over whole minutes. Sampling for the date x time x offset product.",
          "Trusted: reference calendar; the scanner only checks the three stated rules. Three known findings (NaiveDateTime Display form; wall date in the headroom, Debug and Display) are listed in known_findings.json. DateTime<Local> is not covered.",
          "DESIGN.md §4 C09"),
+ "C10": ("differential runtime monitor: RFC 3339 writer compared byte-for-byte with a reference rendering for all SecondsFormat x use_z combinations and parsed back; exact-acceptance differential between an independent byte-level recogniser of the RFC 3339 grammar and parse_from_rfc3339 on generated valid strings, every single-character edit of them, systematic field spaces and arbitrary Unicode",
+         "The reader oracle decides for every input string whether it matches the grammar with the documented latitude and denotes an existing date/time/offset; chrono must accept exactly those and return the denoted value - a disagreement in either direction is a violation. Inputs include all 10^6 hh:mm:ss triples, years x months x days incl. 00/13/32, 7 sign variants x hh 00..99 x mm 00..99 x 8 separators, fraction lengths up to 10^6 digits, and every single edit (delete/swap/replace/insert from 44 characters incl. look-alike Unicode) of grammar-generated strings. The writer is checked on all 2879 offsets, a fraction catalogue at every truncation point and a date sweep over years 0..=9999. 2.2e7 evaluations quick, 4.9e8 thorough; sampling of the string space.",
+         "Trusted: the recogniser and reference renderer in harness/src/props/c10.rs. Leap seconds are generated only on wall second :59; the relaxed readers (%+, FromStr) are not the strict parser and are not judged.",
+         "DESIGN.md §4 C10"),
  "C14": ("runtime soundness/completeness/contradiction monitors on Parsed: all 21 fields recomputed from a value by the reference calendar, a reference resolver written from the rustdoc decides what a field set denotes; all 2^14 date-field subsets for boundary days, random (thorough: all 2^21) subsets of all fields, single-field contradictions, hostile field values, setters twice",
          "Every to_* resolution method is called on field sets derived from real values (sufficient, insufficient, with one contradicting or out-of-range field) and on independently random fields; a successful result is compared field by field with every supplied field (soundness), derived sufficient sets must give exactly the value (completeness), and the error kind is asserted only where the property names it. Subset enumeration is exhaustive for the 14 date fields on 44+ boundary days; the rest is sampling.",
          "Trusted: reference calendar and the reference resolver in harness/src/props/c14.rs (self-checked on derived sets each run). Ambiguous situations (two-digit year groups resolved against a timestamp, missing second with a timestamp) are held only to 'error or sound success'.",
